@@ -114,6 +114,55 @@ def instance_action_args(ctx):
                           "'cgroup' no longer wins and the action acts on the instance's cgroup instead of the cgroups it was configured with" % (t_[:90] or "an empty map"))
 
 
+def instances_kept_only_if_ran(ctx):
+    """Shared by C06 and C11: in Ruleset::runOnce's walk over the matching cgroups, a cgroup is marked visited (= its instance survives the
+    sweep) only in iterations that ran the instance.  An instance that is kept without running is frozen: a suspended chain is neither
+    resumed nor ended, detector windows starve, and it resumes with stale state when the cgroup matches again.  Markings inside scope
+    guards are followed (they happen on every way out of the iteration)."""
+    P = ctx.prog
+    ro = ctx.fn1("Oomd::Engine::Ruleset::runOnce")
+    ls = [l for l in loops(ro) if l["stmt"] is not None and ro.nodes[l["stmt"]]["k"] == "rangefor"
+          and "resolveWildcard()" in ro.text(ro.nodes[l["stmt"]]["range"])]
+    if len(ls) != 1:
+        ctx.broken("instance-kept-only-if-it-ran", "anchor", ro.loc(), "expected one range-for over resolveWildcard() in Ruleset::runOnce")
+        return
+    L = ls[0]
+    inbody = lambda i: ro.pos_of(i) is not None and ro.pos_of(i)[0] in L["body"]
+    impl = [i for i in ro.calls("Ruleset::runOnceImpl") if inbody(i)]
+    # what the sweep tests: the set consulted by the drop loop (found by role: the container whose contains()/find() guards the erase)
+    marks = {}
+    for i in ro.calls("insert", "emplace"):
+        if inbody(i) and "recv" in ro.nodes[i]:
+            rn = ro.nodes[ro.strip(ro.nodes[i]["recv"])]
+            if rn.get("k") == "ref" and rn.get("dk") == "local" and "unordered_set" in (rn.get("type") or "") + "unordered_set":
+                marks[i] = (ro, i)
+    for e_ in ctx.cg.out.get(ro.usr, ()):
+        if e_.kind == "scope-exit" and e_.dst in P.fns and isinstance(e_.node, tuple) and e_.node[1] in L["body"]:
+            cl_ = P.fns[e_.dst]
+            ins_ = [j for j in cl_.calls("insert", "emplace") if "recv" in cl_.nodes[j] and cl_.nodes[cl_.strip(cl_.nodes[j]["recv"])].get("captured")]
+            if ins_:
+                marks[e_.node[1:]] = (cl_, ins_[0])
+    if not impl or not marks:
+        ctx.broken("instance-kept-only-if-it-ran", "anchor", ro.loc(), "no instance run / no visited marking found in the walk over the matching cgroups")
+        return
+    fg = iter_flow(ctx, ro, L, {**{k_: [("set", "visited")] for k_ in marks}, **{i: [("set", "ran")] for i in impl}})
+    # each marking site is judged where it executes (the paths merge again at the loop's latch): the instance has run on every path to it
+    verdict = {}
+    for k_, (g_, j_) in marks.items():
+        ok_ = fg.reachable(k_) is False or fg.must(k_, "ran") or not fg.at(k_)
+        verdict[(g_.usr, j_)] = verdict.get((g_.usr, j_), True) and ok_
+    seen = set()
+    for k_, (g_, j_) in marks.items():
+        if (g_.usr, j_) in seen:
+            continue
+        seen.add((g_.usr, j_))
+        ok = verdict[(g_.usr, j_)]
+        ctx.check(ok, "instance-kept-only-if-it-ran", "order (per iteration, scope guards followed)", g_.loc(j_),
+                  "a cgroup is marked visited only in an iteration that ran its instance",
+                  "a cgroup can be marked visited in an iteration that does not run its instance (attribute gone, open failed, duplicate): the "
+                  "instance survives the sweep without running - a suspended chain is neither resumed nor ended and comes back with stale state")
+
+
 def run(ctx):
     from .C05 import invoking_ruleset_rule
     invoking_ruleset_rule(ctx)
@@ -133,6 +182,14 @@ def run(ctx):
     reg = [i for i in ro.calls("registerRunnableRulesetForCgroupPath") if inbody(i)]
     src_ = [i for i in ro.calls("OomdContext::setRulesetCgroup") if inbody(i)]
     vis = [i for i in ro.calls("insert") if inbody(i) and "visited" in ro.text(ro.nodes[i].get("recv", -1))]
+    # a scope guard declared in the loop body whose closure marks the cgroup visited: the marking happens where the guard dies
+    guard_vis = {}
+    for e_ in ctx.cg.out.get(ro.usr, ()):
+        if e_.kind == "scope-exit" and e_.dst in P.fns and isinstance(e_.node, tuple) and e_.node[1] in L["body"]:
+            cl_ = P.fns[e_.dst]
+            ins_ = [j for j in cl_.calls("insert") if "visited" in cl_.text(cl_.nodes[j].get("recv", -1))]
+            if ins_:
+                guard_vis[e_.node[1:]] = (cl_, ins_[0])
     hx = [i for i in ro.calls("Fs::hasxattrAt") if inbody(i)]
     ctx.counters["instance_run_sites"] = len(impl)
     ctx.floor("instance_run_sites", 1, "instance runOnceImpl call in the wildcard loop")
@@ -143,6 +200,8 @@ def run(ctx):
         ev.setdefault(i, []).append(("set", "cgroup-set"))
     for i in vis:
         ev.setdefault(i, []).append(("set", "visited"))
+    for k_ in guard_vis:
+        ev.setdefault(k_, []).append(("set", "visited"))
     for i in reg:
         ev.setdefault(i, []).append(("set", "created"))
     split = lambda k: k == "this->xattr_filter_.empty()"
@@ -181,15 +240,16 @@ def run(ctx):
     for i in vis:
         ctx.check(fi.must(i, "ran") and hoist_text(ro, ro.nodes[i]["args"][0], P) == KEY, "visited-after-run-same-key", "order", ro.loc(i),
                   "a cgroup is marked visited (by the same key) after its instance ran", "visited marking does not follow the run with the same key")
+    instances_kept_only_if_ran(ctx)
     for i in impl:
         # the visit marking follows on every path to the end of the iteration
-        fv = iter_flow(ctx, ro, L, {**{v: [("set", "visited")] for v in vis}, **{i: [("set", "ran")]}})
+        fv = iter_flow(ctx, ro, L, {**{v: [("set", "visited")] for v in vis}, **{k_: [("set", "visited")] for k_ in guard_vis}, **{i: [("set", "ran")]}})
         okv = True
         for b in back_sources(L):
             for st in (fv.OUT.get(b) or {}).values():
                 if "ran" in st.may and not ("visited" in st.must or "ran" not in st.must):
                     okv = False
-        ctx.check(okv and bool(vis), "run-implies-visited", "must_follow", ro.loc(i),
+        ctx.check(okv and bool(vis or guard_vis), "run-implies-visited", "must_follow", ro.loc(i),
                   "every instance that ran is marked visited in that iteration", "an instance can run without being marked visited (it would be dropped)")
     ctx.counters["create_sites"] = len(reg)
     ctx.floor("create_sites", 1, "instance creation call")
